@@ -94,6 +94,8 @@ def deep_eq(e, a, b):
     if isinstance(a, Int) and isinstance(b, Int):
         if a.concrete and b.concrete:
             return a.v == b.v
+        if not a.concrete and not b.concrete and a.v.eq(b.v):
+            return True
         return a.z() == b.z()
     if isinstance(a, bool) and isinstance(b, bool):
         return a == b
@@ -782,11 +784,68 @@ def set_len(e, args, fr, m):
 def hashset_extend(e, args, fr, m):
     s, o = e.load(args[0]), e.force(args[1])
     items = list(s.items)
-    for x in o.items:
+    src = o.items[o.pos:] if isinstance(o, IterV) and o.kind == 'val' else (lazy_drain(e, fr, _as_lazy(e, o))[0] if isinstance(o, IterV) else o.items)
+    for x in src:
+        x = e.load(x) if isinstance(x, (Ref, ValRef)) else x
         if set_member(e, SetV(items), x) is not True:
             items.append(x)
     e.store(args[0], SetV(items, s.kind))
     return UNIT
+
+
+@contract(r'^<.* as Iterator>::collect::<(BTreeSet|HashSet)<.*>>$')
+def iter_collect_set(e, args, fr, m):
+    it = e.force(args[0])
+    src = list(it.items[it.pos:]) if isinstance(it, IterV) and it.kind == 'val' else lazy_drain(e, fr, _as_lazy(e, it))[0]
+    items = []
+    for x in src:
+        x = e.load(x)
+        if set_member(e, SetV(items), x) is not True:
+            items.append(x)
+    return SetV(items, 'btree' if m.group(1) == 'BTreeSet' else 'hash')
+
+
+def _loc_key(e, v):
+    v = e.load(v)
+    if not (isinstance(v, Adt) and v.ty == 'Loc' and v.variant == 'File'):
+        raise Unsupported('ordering of %r' % (v,))
+    return [e.force(f) for f in v.fields]
+
+
+def _lex_lt(e, xs, ys, or_equal=False):
+    strict, prefix = [], True
+    for x, y in zip(xs, ys):
+        strict.append(conj(e, [prefix, e.binop('Lt', x, y)]))
+        prefix = conj(e, [prefix, e.binop('Eq', x, y)])
+    return disj(strict + ([prefix] if or_equal else []))
+
+
+@contract(r'^BTreeSet::<Loc>::range::<Loc, Range(Inclusive|From|To|)<Loc>>$')
+def btreeset_range_loc(e, args, fr, m):
+    """the elements lo <= x < hi in the derived order of Loc::File (file number, start, end): one decision per element"""
+    s = e.load(args[0])
+    rng = e.force(args[1])
+    kind = m.group(1)
+    lo = _loc_key(e, rng.fields[0]) if kind in ('', 'Inclusive', 'From') else None
+    hi = _loc_key(e, rng.fields[-1 if kind != 'From' else 0]) if kind in ('', 'Inclusive', 'To') else None
+    if kind == 'Inclusive' and len(rng.fields) > 2:
+        hi = _loc_key(e, rng.fields[1])
+    out = []
+    for x in s.items:
+        k = _loc_key(e, x)
+        conds = []
+        if lo is not None:
+            conds.append(_lex_lt(e, lo, k, or_equal=True))
+        if hi is not None:
+            conds.append(_lex_lt(e, k, hi, or_equal=(kind == 'Inclusive')))
+        if e.branch(conj(e, conds)):
+            out.append(x)
+    return IterV(out, 0, 'val')
+
+
+@contract(r'^<(?:btree_set::)?Range<.*> as IntoIterator>::into_iter$')
+def btree_range_into_iter(e, args, fr, m):
+    return args[0]
 
 
 @contract(r'^<HashSet<.*> as IntoIterator>::into_iter$')
